@@ -74,7 +74,7 @@ func c06Run(r *core.Run) {
 				if quiet || rq == nil || rq.Fault != "" || t.Choose(10, "broker-fault") >= faultRate {
 					return "ack"
 				}
-				k := core.Pick(t, "broker-fault-kind", "refuse", "nack", "hangup", "stall", "refuse")
+				k := core.Pick(t, "broker-fault-kind", "refuse", "nack", "hangup", "stall", "drop", "chanclose", "lostack")
 				rq.Fault = "amqp-" + k
 				r.Fault("audit-amqp-" + k)
 				return k
